@@ -15,25 +15,28 @@ VARIABLE l
 tvars == <<mvars, l>>
 
 ShapeOfJ(j) == [kind |-> "test", conv |-> j.conv, fin |-> j.fin, edits |-> j.edits]
+\* the recorded outcome, as the machine's outcome: the value without the printed form
+OutOf(o) == IF "ok" \in DOMAIN o /\ o.ok THEN [ok |-> TRUE, v |-> o.v] ELSE o
 Can(e) ==
-  CASE e.ev = "begin" -> pc = "idle"
-    [] e.ev = "conv" -> pc = "conv" /\ e.arg = front.type /\ ValidType(e.arg)
-    [] e.ev = "finish" -> /\ pc = "finish" /\ e.before = parts /\ e.ok = shape.fin
+  CASE e.ev = "begin" -> pc \in {"idle", "end"}
+    [] e.ev = "conv" -> CanConv(e.arg)
+    [] e.ev = "finish" -> /\ CanFinish(e.before) /\ e.ok = StepFinish(shape, st, e.before, LowerTab).ok
                           /\ (e.ok => e.after = ApplyEdits(e.before, shape.edits))
                           /\ (~e.ok => e.after = e.before)
-    [] e.ev = "end" -> pc = "end" /\ e.out = Outcome(out)
-    [] e.ev = "value" -> pc = "idle" /\ ValidParts(e.v)
+    [] e.ev = "end" -> /\ "panic" \notin DOMAIN e.out /\ CanEnd(OutOf(e.out))
+                       /\ e.out = Outcome(OutOf(e.out))                      \* the printed form is the value's
+    [] e.ev = "value" -> pc \in {"idle", "end"} /\ ValidParts(e.v)
     [] OTHER -> FALSE
 Do(e) ==
   CASE e.ev = "begin" -> IF e.entry = "parse" THEN MBeginParse(e.s, ShapeOfJ(e.shape))
                          ELSE MBeginBuild(e.st, e.parts, ShapeOfJ(e.shape))
     [] e.ev = "conv" -> MConv(e.arg)
     [] e.ev = "finish" -> MFinish(e.before, e.after, e.ok)
-    [] e.ev = "end" -> MEnd(out)
+    [] e.ev = "end" -> MEnd(OutOf(e.out))
     [] OTHER -> UNCHANGED mvars
 RECURSIVE NextBegin(_)
 NextBegin(i) == IF i > Len(Rec) THEN i ELSE IF Rec[i].ev = "begin" THEN i ELSE NextBegin(i + 1)
-Resync == /\ pc' = "idle" /\ UNCHANGED <<shape, entry, front, st, parts, out, nConv, nFin>>
+Resync == /\ pc' = "idle" /\ UNCHANGED <<shape, entry, info, conv, hook, st, parts, out, nConv, nFin>>
           /\ l' = NextBegin(l + 1)
 
 TraceInit == MInit /\ l = 1 /\ TLCSet(1, 0)
